@@ -25,6 +25,7 @@
 #include <sys/time.h>
 #include <sys/wait.h>
 #include "mjdrv_common.h"
+#include "mkmodel_ext.h"      // xmodel op: hfield / tuple / skin element kinds
 extern "C" const char* mj_validateReferences(const mjModel* m);
 
 static std::map<int, std::vector<unsigned char>> g_img;
@@ -152,6 +153,7 @@ static void mjb_do_load(const std::vector<std::string>& t) {
 
 static bool mjb_extra(const std::vector<std::string>& t, const std::vector<std::string>& lines, size_t& i) {
   const std::string& op = t[0];
+  if (mkx_op(t, lines, i)) return true;
   if (op == "mjbsave") {
     int ms = atoi(t.at(1).c_str()); mjModel* m = M(ms);
     mjtSize sz = mj_sizeModel(m);
